@@ -358,6 +358,11 @@ def gen_bad_response(rng):
         loc = rng.choice(BAD_LOCATIONS)
         status = rng.choice([b"301 Moved Permanently", b"302 Found", b"303 See Other", b"307 Temporary Redirect"])
         raw = b"HTTP/1.1 " + status + b"\r\nLocation: " + loc + b"\r\nContent-Length: 0\r\n\r\n"
+        import zlib
+        if zlib.crc32(raw) % 7 == 0:
+            # a redirect status without any Location header
+            raw = b"HTTP/1.1 " + status + b"\r\nContent-Length: 0\r\n\r\n"
+            return raw, raw, "nolocation", False
         return raw, raw, "location", False
     data, op = hg.mutate(rng, valid)
     return valid, data, op, False
@@ -365,7 +370,9 @@ def gen_bad_response(rng):
 
 BAD_LOCATIONS = [b"http://[::1/x", b"http://127.0.0.1:99999/x", b"http://127.0.0.1:8o80/x", b"http://[fe80::1%eth0/x",
                  b"http://127.0.0.1:-5/x", b"http://[::1]:x/", b"/ok/relative", b"relative?q=1", b"http://127.0.0.1:65536/",
-                 b"http://[/x", b"//[::1/y"]
+                 b"http://[/x", b"//[::1/y",
+                 # a url without a host, a bracketed host of the IPvFuture form with letters where the port stands
+                 b"https:///nohost", b"http://[v1.zz:ab]/x", b"http://[v1.a:b]:80/x", b"//:x/y", b"http://:70000/"]
 
 
 def client_case(ctx, rng, idx, deadline):
@@ -422,6 +429,51 @@ def client_case(ctx, rng, idx, deadline):
                   lambda: wit({"outcome": outcome, "responses": [dict(r) for r in patron.responses]}))
     ctx.hit("client:" + outcome)
     ctx.hit("cop:" + op)
+    followable = op == "location" and (b"Location: /ok/relative" in data or b"Location: relative?q=1" in data)
+    if hang and not queue and escaped is None and conn.cutoff and not followable:
+        # everything the server sent was delivered, the server closed and the client has noticed: the exchange is over -- a
+        # response that can never be completed is an error to record, not something to wait for
+        ctx.hit("client_exchanges_ended_by_the_servers_close")
+        if outcome == "waiting":
+            ctx.hit("client_left_waiting_after_close:" + op)
+        ctx.check(outcome != "waiting", "client/waits-for-ever-after-the-connection-closed",
+                  "the server sent an incomplete response and closed; the client noticed the closed connection and still records "
+                  "nothing (no response, no error) after %d service rounds (mutation %s)" % (rounds, op),
+                  lambda: wit({"left_in_receive_buffer": bytes(conn.rxbs), "respondent_ended": patron.respondent.ended,
+                               "waited": patron.waited}))
+    if op in ("location", "nolocation") and not queue and escaped is None and not followable:
+        # the redirect response is complete and cannot be followed: it is delivered (recorded), never asked for again and again
+        nreq0 = bytes(net.conns[0][2].buf).count(b"GET ")
+        ctx.check(outcome != "waiting" and nreq0 == 1, "client/complete-redirect-response-neither-followed-nor-recorded/" + op,
+                  "a complete redirect response (%s) is not recorded after %d service rounds; the request was sent %d times" % (
+                      op, rounds, nreq0), lambda: wit({"requests_sent": nreq0, "redirects_kept": len(patron.redirects)}))
+    if op in ("location", "nolocation") and not followable and not hang and escaped is None and len(patron.responses) == 1 \
+            and not conn.cutoff:
+        # normal use after the redirect that could not be followed: the next exchange on the same patron is an ordinary one
+        seen_before = len(net.conns[0][2].buf)
+        patron.request(method="GET", path="/after")
+        sent = False
+        esc2 = None
+        for r2 in range(30):
+            try:
+                patron.serviceAll()
+            except Exception as ex:
+                esc2 = (exc_key(ex), "%s: %s" % (type(ex).__name__, str(ex)[:100]))
+                break
+            net.deliver()
+            if not sent and len(net.conns[0][2].buf) > seen_before:
+                ss.send(b"HTTP/1.1 200 OK\r\nContent-Length: 2\r\n\r\nok")
+                sent = True
+            net.deliver()
+            store.advanceStamp(0.01)
+        ctx.hit("exchanges_after_a_redirect_not_followed")
+        got = [(r["status"], bytes(r["body"]), bool(r["errored"])) for r in list(patron.responses)[1:]]
+        nreq = bytes(net.conns[0][2].buf)[seen_before:].count(b"GET ")
+        ctx.check(esc2 is None and got == [(200, b"ok", False)] and nreq == 1,
+                  "client/exchange-after-a-redirect-not-followed/%s" % ("raises" if esc2 else "wrong-response" if nreq == 1 else "requests-repeated"),
+                  "after a redirect that could not be followed the next exchange on the same patron (answered 200 ok) gave %s, %d "
+                  "request(s) sent%s" % (got, nreq, ", raised %s" % (esc2[1],) if esc2 else ""),
+                  lambda: wit({"second_exchange": got, "requests_sent": nreq, "escaped": esc2}))
     ctx.case(("client", data, cuts, hang), nontrivial=((data != valid or op == "jsonbody") and req_seen))
     conn.close()
 
